@@ -489,32 +489,8 @@ func (a *analysis) plan(in *Injector) *InjPlan {
 		}
 		pl.Problems = append(pl.Problems, pr)
 	}
-	// FieldsOf with several names: wire's unit is the field. A direct multi-name
-	// FieldsOf of which only some names are needed is a no-claim zone.
-	for _, m := range in.Build {
-		if m.Item < 0 {
-			continue
-		}
-		it := p.Items[m.Item]
-		if it.Kind != KFields || len(it.Names) < 2 {
-			continue
-		}
-		used, unused := 0, 0
-		for _, pv := range a.itemProvisions(it) {
-			if pv.OutIdx != 0 {
-				continue
-			}
-			ptrKey := PtrTo(pv.Ty).Key(p)
-			if state[pv.Ty.Key(p)] == 1 && pl.NeedProv[pv.Ty.Key(p)] == pv || (pl.NeedProv[ptrKey] != nil && pl.NeedProv[ptrKey].Item == it && pl.NeedProv[ptrKey].Via == pv.Via) {
-				used++
-			} else {
-				unused++
-			}
-		}
-		if used > 0 && unused > 0 {
-			pl.Problems = append(pl.Problems, Problem{Class: "noclaim-partial-fields", Inj: in.Name})
-		}
-	}
+	// (A FieldsOf item with several names is one item: it contributes as soon as one of its
+	// fields is needed — C08 "via one of several listed fields".)
 	if len(pl.Problems) > 0 {
 		return pl
 	}
